@@ -37,7 +37,26 @@ def make_context(case):
 
 def run_impl(case):
     def go():
-        K = make_context(case)
+        ren = case.get('rename')
+        if ren:
+            # history: build with OLD names, ask a few by-name questions, rename in place, then ask the
+            # case's question (the model is stateless: it sees the context with the new names only)
+            old = dict(case, onames=ren['onames0'], anames=ren['anames0'])
+            K = make_context(old)
+            for w in ren.get('warm', []):
+                try:
+                    if w[0] == 'ext':
+                        K.extension([aname(k) for k in w[1]])
+                    else:
+                        K.intention([oname(k) for k in w[1]])
+                except KeyError:
+                    pass
+            if ren.get('set_objects', True):
+                K.object_names = [oname(k) for k in case['onames']]
+            if ren.get('set_attributes', True):
+                K.attribute_names = [aname(k) for k in case['anames']]
+        else:
+            K = make_context(case)
         op, arg, base = case['op'], case['arg'], case['base']
         if op == 0:
             return canon(K.extension_i(list(arg), None if base is None else list(base)))
@@ -89,7 +108,8 @@ def stats(case):
     t = case['table']
     return {'shape': '%dx%d' % (len(t), len(t[0])), 'op': case['op'], 'backend': case['backend'],
             'base': 'none' if case['base'] is None else ('empty' if not case['base'] else 'given'),
-            'arg': 'empty' if not case['arg'] else 'nonempty', 'kind': case.get('kind', '')}
+            'arg': 'empty' if not case['arg'] else 'nonempty', 'kind': case.get('kind', ''),
+            'history': 'rename' if case.get('rename') else 'fresh'}
 
 
 def _mk(backend, t, op, arg, base, onames=None, anames=None, kind=''):
@@ -114,6 +134,16 @@ def random_case(rng, max_dim):
     base = None if rng.random() < 0.35 else gen.random_subset(rng, n_base)
     if op in (5, 7):
         base = None
+    dup = False
+    if op in (0, 1, 4, 5) and rng.random() < 0.15:
+        # a listing with a repeated entry denotes the same set (the monotone variants are left out:
+        # their length shortcuts make duplicates a different question, outside the property)
+        if arg:
+            arg = arg + [rng.choice(arg)]
+            dup = True
+        if base:
+            base = base + [rng.choice(base)]
+            dup = True
     if op >= 4:
         arg_names = [(onames if on_rows else anames)[i] for i in arg]
         base_names = None if base is None else [(anames if on_rows else onames)[i] for i in base]
@@ -123,7 +153,28 @@ def random_case(rng, max_dim):
         elif r < 0.25 and base_names is not None:
             base_names.insert(rng.randint(0, len(base_names)), UNKNOWN + rng.randrange(5))
         arg, base = arg_names, base_names
-    return _mk(b, t, op, arg, base, onames, anames, kind)
+    c = _mk(b, t, op, arg, base, onames, anames, kind + ('+dup' if dup else ''))
+    if op >= 4 and rng.random() < 0.2:
+        # rename history: the context is first built under other names (partly overlapping with the
+        # final ones, so that a stale lookup table gives a wrong column rather than a KeyError)
+        on0 = list(onames)
+        an0 = list(anames)
+        rng.shuffle(on0)
+        rng.shuffle(an0)
+        if rng.random() < 0.5:
+            on0 = rng.sample(range(50), h)
+            an0 = rng.sample(range(50), w)
+        warm = []
+        for _ in range(rng.randint(0, 2)):
+            if rng.random() < 0.5:
+                warm.append(['ext', rng.sample(an0, rng.randint(0, w))])
+            else:
+                warm.append(['int', rng.sample(on0, rng.randint(0, h))])
+        so, sa = rng.random() < 0.8, rng.random() < 0.8
+        c['rename'] = {'onames0': on0 if so else list(onames), 'anames0': an0 if sa else list(anames),
+                       'warm': warm, 'set_objects': so, 'set_attributes': sa}
+        c['kind'] += '+rename'
+    return c
 
 
 def exhaustive_cases():
